@@ -78,10 +78,44 @@ def decRollForwardNtN (m : Mode) (t : Cbor) : Option Val :=
     | _, _, _ => none
   | _ => none
 
+/-- three-valued answer of a hand model: a value, a rejection, or "not modelled for this input"
+    (the driver then admits the implementation's answer) -/
+inductive Ans where
+  | val (v : Val)
+  | rej
+  | unknown
+
+def Ans.ofOption : Option Val → Ans
+  | some v => .val v
+  | none => .rej
+
+/-- local-tx-submission `MsgSubmitTx` = `[0, [era, <tag>(tx)]]`: a plain toarray struct whose last field
+    is a `cbor.Tag` (any tag number, content decoded generically). Modelled when the content is a byte
+    string (the only form the constructor builds); other contents are left to the implementation. -/
+def decSubmitTx (m : Mode) (t : Cbor) : Ans :=
+  match structItems m t with
+  | some [ty, tx] =>
+    match decVal m (.uint 8) ty, structItems m tx with
+    | some vty, some [era, raw] =>
+      (match decVal m (.uint 16) era with
+       | some vera =>
+         let r := if m.tags then strip55799 raw else raw
+         (match r with
+          | .tag _ n x =>
+            (match strPayload false x with
+             | some b => if m.tags || n == 24 then .val (.s [vty, .s [vera, .s [.u n, .h b]]]) else .rej
+             | none => if m.tags then .unknown else .rej)
+          | _ => if m.null && isNull r then .unknown else .rej)
+       | none => .rej)
+    | some _, none => if m.null && isNull (if m.tags then stripTags tx else tx) then .unknown else .rej
+    | _, _ => .rej
+  | _ => .rej
+
 /-- messages modelled here instead of by a regenerated shape -/
-def special (name : String) : Option (Mode → Cbor → Option Val) :=
-  if name == "RollForwardNtC" then some decRollForwardNtC
-  else if name == "RollForwardNtN" then some decRollForwardNtN
+def special (name : String) : Option (Mode → Cbor → Ans) :=
+  if name == "RollForwardNtC" then some (fun m t => .ofOption (decRollForwardNtC m t))
+  else if name == "RollForwardNtN" then some (fun m t => .ofOption (decRollForwardNtN m t))
+  else if name == "SubmitTx" then some decSubmitTx
   else none
 
 end GV.Model.MsgWrappers
